@@ -7,8 +7,8 @@ import json, os, subprocess, sys
 
 root, out = sys.argv[1], sys.argv[2]
 ids = sys.argv[3:] or [f"C{i:02d}" for i in range(1, 21)]
-EXTRA = {"C02": ["C08", "C10", "C18"], "C06": ["C14"], "C07": ["C14"], "C10": ["C04"], "C04": ["C10"], "C16": ["C08", "C05"], "C15": ["C05"], "C20": ["C05"],
-         "C14": ["C09"], "C09": ["C14"], "C11": ["C09", "C05"], "C03": ["C19", "C16"], "C18": ["C10"], "C12": ["C01"], "C01": ["C12"], "C13": ["C01"]}
+EXTRA = {"C02": ["C08", "C10", "C18", "C19"], "C06": ["C14"], "C07": ["C14"], "C10": ["C04"], "C04": ["C10", "C19"], "C16": ["C08", "C05"], "C15": ["C05"], "C20": ["C05"],
+         "C14": ["C09"], "C09": ["C14"], "C11": ["C09", "C05"], "C03": ["C19", "C16", "C02"], "C18": ["C10"], "C12": ["C01"], "C01": ["C12"], "C13": ["C01"]}
 WT = os.environ.get("SEED_WT", "/tmp/seedrepo")
 subprocess.run(["git", "-C", "/repo", "worktree", "remove", "--force", WT], capture_output=True)
 subprocess.run(["git", "-C", "/repo", "worktree", "add", "-q", "--detach", WT, "HEAD"], check=True)
